@@ -1,5 +1,5 @@
 From Coq Require Import Extraction ExtrOcamlBasic.
 Require Import NixV.Base.Prelude NixV.FileIO.Ids.
 Extraction Language OCaml.
-Extraction "model_C12.ml" new_file step observe spec_observe procs_common toy_gen current_behaviour id_of
+Extraction "model_C12.ml" new_file step observe spec_observe procs_common fork_common toy_gen current_behaviour id_of
   uuid_wellformedb looksLikeUUID code_today repaired.
